@@ -134,3 +134,80 @@ Proof.
     apply gidx_eqb_eq in H; subst; reflexivity.
   - destruct (h_id a), (h_id b); try discriminate. intros _. right; auto.
 Qed.
+
+(* ---------------------------------------------------------------------------------------------- *)
+(* effect of the table-changing calls on the set of connections (C01, C04, C15): the table is a finite map
+   keyed by ids; each call changes exactly the entry it names *)
+
+Definition conn_of (w : world) (i : nat) (k : gidx) : option conn :=
+  match get_impl w i with Some m => g_get (i_conns m) k | None => None end.
+
+(* connect: a fresh id, the new connection under it, everything else as before *)
+Theorem connect_effect w s h c i m w' :
+  winv w -> lookup (w_sigs w) s = Some (Some i) -> get_impl w i = Some m -> c_tbd c = false ->
+  do_connect w s h c = (w', None) ->
+  exists k, lookup (w_handles w') h = Some {| h_impl := Some i; h_id := Some k |} /\
+            conn_of w i k = None /\ ~ In k (i_issued m) /\
+            (forall k', conn_of w' i k' = if gidx_eqb k k' then Some c else conn_of w i k') /\
+            (forall j, j <> i -> get_impl w' j = get_impl w j).
+Proof.
+  intros Hw Hs Hm Ht. unfold do_connect, ensure_impl. rewrite Hs, Hm.
+  destruct (i_emitting m); [discriminate|].
+  destruct (N.ltb_spec (N.of_nat (length (i_issued m)) + 1) W) as [Hlt|Hge]; cbn [negb]; [|discriminate].
+  destruct (g_insert (i_conns m) c) as [g k] eqn:Hins. intros H; inversion H; subst w'; clear H.
+  destruct (Hw _ _ Hm) as (Hwf & Hfr & _).
+  destruct (insert_spec _ _ _ _ Hwf Hins) as (_ & Hnone & _ & Hget & _).
+  assert (Hal' : ga_allocate (g_alloc (i_conns m)) = (g_alloc g, k)).
+  { unfold g_insert in Hins. destruct (ga_allocate (g_alloc (i_conns m))) as [al k0] eqn:E. inversion Hins; subst. reflexivity. }
+  destruct (fresh_inv_allocate _ _ _ _ (proj1 Hwf) Hfr Hlt Hal') as [_ Hfresh].
+  exists k. split; [cbn [set_handles w_handles]; apply lookup_bind_same|].
+  split; [unfold conn_of; rewrite Hm; exact Hnone|]. split; [exact Hfresh|]. split.
+  - intros k'. unfold conn_of.
+    change (get_impl (set_handles (put_impl w i (impl_issue m g k)) _) i) with (get_impl (put_impl w i (impl_issue m g k)) i).
+    rewrite (get_put_same _ _ _ _ Hm), Hm. cbn [impl_issue i_conns]. apply Hget.
+  - intros j Hj. change (get_impl (set_handles (put_impl w i (impl_issue m g k)) _) j) with (get_impl (put_impl w i (impl_issue m g k)) j).
+    apply get_put_other; auto.
+Qed.
+
+(* disconnect of a non-emitting Impl: exactly that entry goes *)
+Theorem disconnect_effect w i k m :
+  winv w -> get_impl w i = Some m -> i_emitting m = false ->
+  (forall k', conn_of (impl_disconnect w i k) i k' = if gidx_eqb k k' then None else conn_of w i k') /\
+  (forall j, j <> i -> get_impl (impl_disconnect w i k) j = get_impl w j).
+Proof.
+  intros Hw Hm Hem. pose proof (Hw _ _ Hm) as (Hwf & _).
+  destruct (erase_spec _ k Hwf) as (_ & Hget & _ & Hnoop & _).
+  destruct (g_get (i_conns m) k) as [c|] eqn:Hc.
+  - pose proof (impl_disconnect_nonemitting w i k m c Hm Hem Hc) as Hd. split.
+    + intros k'. unfold conn_of. rewrite Hd, Hm. cbn [impl_with_conns i_conns]. apply Hget.
+    + intros j Hj. unfold impl_disconnect. rewrite Hm, Hc, Hem. rewrite get_put_other by auto.
+      destruct (c_kind c); try reflexivity. destruct (ev_alive w ev); [|reflexivity].
+      unfold ev_dequeue. destruct (lookup (w_evs w) ev) as [s|]; [|reflexivity].
+      destruct (negb (e_alive s)); [reflexivity|]. destruct (e_evaluating s); reflexivity.
+  - unfold impl_disconnect. rewrite Hm, Hc, (Hnoop eq_refl).
+    assert (E : impl_with_conns m (i_conns m) = m) by (destruct m; reflexivity). rewrite E. split.
+    + intros k'. unfold conn_of. rewrite (get_put_same _ _ _ _ Hm), Hm.
+      destruct (gidx_eqb k k') eqn:Ek; [apply gidx_eqb_eq in Ek; subst; assumption|reflexivity].
+    + intros j Hj. apply get_put_other; auto.
+Qed.
+
+(* block: returns the previous setting, sets exactly that entry's flag *)
+Theorem block_effect w i k b m c :
+  winv w -> get_impl w i = Some m -> g_get (i_conns m) k = Some c ->
+  snd (impl_block w i k b) = Some (c_blocked c) /\
+  (forall k', conn_of (fst (impl_block w i k b)) i k' = if gidx_eqb k k' then Some (conn_set_blocked c b) else conn_of w i k') /\
+  (forall j, j <> i -> get_impl (fst (impl_block w i k b)) j = get_impl w j).
+Proof.
+  intros Hw Hm Hc. pose proof (Hw _ _ Hm) as (Hwf & _).
+  destruct (update_spec _ k (conn_set_blocked c b) Hwf) as (_ & Hget & _).
+  unfold impl_block. rewrite Hm, Hc. cbn [fst snd]. split; [reflexivity|]. split.
+  - intros k'. unfold conn_of. rewrite (get_put_same _ _ _ _ Hm), Hm. cbn [impl_with_conns i_conns].
+    rewrite Hget, Hc. reflexivity.
+  - intros j Hj. apply get_put_other; auto.
+Qed.
+
+Theorem block_rejects_unknown w i k b :
+  conn_of w i k = None -> impl_block w i k b = (w, None).
+Proof.
+  unfold conn_of, impl_block. destruct (get_impl w i) as [m|]; [|reflexivity]. intros ->. reflexivity.
+Qed.
